@@ -569,16 +569,6 @@ fn report(ev: &mut Ev, sig: &str, what: &str, replay: J, found: bool) {
     ev.violation(sig, what, replay, found);
 }
 
-/// Mechanism test of the one open defect of `check_type_relation` on recursive types (C09,
-/// `compat=resolved-cycle-keeps-inner-stack`): the verdict `tid ≤ p` is recomputed with the model's
-/// `checkRelT` — the code as it is, except that a resolved `Cycle` continues below the enclosing types
-/// of the boundary it points to. That does not change what the two types mean, so a refusal confirms
-/// that the acceptance came from back-references counted on a stack that still held the types between
-/// the reference and its target.
-fn mech_resolved_cycle(model: &mut TModel, tid: usize, p: usize) -> bool {
-    model.ask(&format!("(compatT {tid} {p})")) == "false"
-}
-
 /// model vs implementation on one input; returns the implementation's tables when available
 fn correspond(ev: &mut Ev, model: &mut TModel, srv: &mut ImplServer, inp: &Input, what: &str, key: &str) -> Option<Tables> {
     let (sx, _) = inp.sx();
@@ -655,8 +645,6 @@ fn oracle(ev: &mut Ev, model: &mut TModel, inp: &Input, t: &Tables, what: &str) 
                 let fo = classes.get(tid) == Some(&'f') && classes.get(p) == Some(&'f');
                 let sig = if fo {
                     format!("istype-unsound:{}-vs-{}", inp.tbl.kind(tid), inp.tbl.kind(p))
-                } else if mech_resolved_cycle(model, tid, p) {
-                    "istype=resolved-cycle-keeps-inner-stack".to_string()
                 } else {
                     format!("istype-unsound:{}-vs-{} (recursive/higher-order)", inp.tbl.kind(tid), inp.tbl.kind(p))
                 };
